@@ -1,6 +1,7 @@
 import Driver.Loop
 import Midgard.Model.WriterFiles
 import Midgard.Model.WriterSta
+import Midgard.Model.WriterCsv
 
 /-! Driver for C17 (text travels hex-encoded; `.` = empty, `-` = absent).
 
@@ -15,6 +16,8 @@ import Midgard.Model.WriterSta
   c17 tmshdr <col,…>                          the `* _NAME__` line
   c17 tmsdata <col,…> <epoch|epoch…>          epoch = <int>@env
   c17 tmsrange <col,…> <epoch|epoch…>         the range predicate of `tms_data_block_roundtrip` → 1 | 0
+  c17 csvparse <hexfile>                      parsers/csv_.py model: name=kind:values;…  (i: ints, f: rationals `n` or `ndm` / nan,
+                                              s: hex texts, o: outside the model; values `/`-separated) | []
   c17 csvsplit <hexline>                      the line cut at `,` / `;` → hex,hex,…  (`.` = empty piece)
   c17 blocks <0|1> <0|1> <0|1>                markers of the blocks written + balanced flag
   c17 csv <fmt,…> <row|row…>                  fmt = s | d | f<prec>;  row = <hexdate>@value;value…
@@ -144,7 +147,17 @@ def parseEntry? (s : String) : Option Midgard.WriterSta.Entry :=
 def showRecord (rcv ant ecc : Midgard.WriterSta.Hist) (r : Midgard.WriterSta.Record) : String :=
   s!"{r.from_}:{r.to_}:{rcv.idxOf r.rcv}:{ant.idxOf r.ant}:{ecc.idxOf r.ecc}"
 
+def showCol : Midgard.WriterCsv.Col → String
+  | .ints l => "i:" ++ "/".intercalate (l.map toString)
+  | .floats l => "f:" ++ "/".intercalate (l.map fun q => match q with | some q => (showRat q).replace "/" "d" | none => "nan")
+  | .strs l => "s:" ++ "/".intercalate (l.map hexOf)
+  | .other => "o:"
+
 def handle : List String → Option String
+  | ["c17", "csvparse", hx] => do
+    let t ← decodeHex? hx
+    let cols := Midgard.WriterCsv.csvParse t.toList
+    pure (if cols.isEmpty then "[]" else ";".intercalate (cols.map fun (n, c) => encodeHex n ++ "=" ++ showCol c))
   | ["c17", "starecords", sf, rcv, ant, ecc] => do
     let sf ← parseBool? sf
     let rcv ← parseList? parseEntry? rcv
